@@ -213,6 +213,135 @@ func runC03(c *Ctx, w *World, r *Report) {
 		})
 		r.Check(badP == "", "R-CONTRACT-RANGE", "bmtree.pathCheck|width", w.Pos(pc.Pos()), badP, "width mask covers only bits 30,31 of each half")
 	}
+	// ---- R-CONTRACT-RANGE, general form: must.Be.True(x < K) / (x <= K) with x a quantity whose valid
+	// maximum the property fixes and K a constant or a bitmap table entry with a constant index
+	{
+		validMax := map[string]int64{"PathBits": 1<<30 - 1, "PathHeight": 30, "Height": 30, "PathLen": 30, "PathMask": 1<<30 - 1}
+		foldK := func(v ssa.Value) (int64, bool) {
+			if k, ok := constInt64(stripConv(v)); ok {
+				return k, true
+			}
+			if tab, idx, ok := asElemLoad(v); ok {
+				if g, ok := tab.(*ssa.Global); ok && g.Pkg.Pkg.Name() == "bitmap" {
+					if c, ok := constInt64(stripConv(idx)); ok && c >= 0 && c < 63 {
+						switch g.Name() {
+						case "Bit":
+							return int64(1) << uint(c), true
+						case "Mask":
+							return int64(1)<<uint(c) - 1, true
+						case "MaskUpto":
+							return int64(1)<<uint(c+1) - 1, true
+						}
+					}
+				}
+			}
+			return 0, false
+		}
+		for _, f := range hl {
+			seen := map[string]int{}
+			eachInstr(f, func(ins ssa.Instruction) {
+				call, ok := ins.(*ssa.Call)
+				if !ok {
+					return
+				}
+				if name, ok := isMustCall(call); !ok || name != "True" || len(call.Common().Args) < 2 {
+					return
+				}
+				bo, ok := call.Common().Args[1].(*ssa.BinOp)
+				if !ok {
+					return
+				}
+				op, isCmp := tokOp(bo.Op)
+				if !isCmp {
+					return
+				}
+				x, kv := bo.X, bo.Y
+				if _, ok := foldK(kv); !ok {
+					x, kv, op = bo.Y, bo.X, flipOp(op)
+				}
+				K, ok := foldK(kv)
+				if !ok {
+					return
+				}
+				xc, ok := stripConv(x).(*ssa.Call)
+				if !ok || xc.Common().StaticCallee() == nil {
+					return
+				}
+				vm, ok := validMax[xc.Common().StaticCallee().Name()]
+				if !ok {
+					return
+				}
+				seen[xc.Common().StaticCallee().Name()]++
+				key := fmt.Sprintf("%s|True(%s)#%d", w.FuncName(f), xc.Common().StaticCallee().Name(), seen[xc.Common().StaticCallee().Name()])
+				bad := ""
+				switch op {
+				case opLT:
+					if K <= vm {
+						bad = fmt.Sprintf("contract `%s(...) < %d` rejects the valid value %d", xc.Common().StaticCallee().Name(), K, vm)
+					}
+				case opLE:
+					if K < vm {
+						bad = fmt.Sprintf("contract `%s(...) <= %d` rejects the valid value %d", xc.Common().StaticCallee().Name(), K, vm)
+					}
+				}
+				r.Check(bad == "", "R-CONTRACT-RANGE", key, w.InstrPos(call), bad+": a -tags debug build panics on valid input (trees of height 30 / 30-bit paths) while the release build returns normally", fmt.Sprintf("bound %d admits the valid maximum %d", K, vm))
+			})
+		}
+	}
+	// ---- R-NARROWSHL: a value explicitly narrowed to <= 32 bits must not be shifted left by a variable amount
+	r.Rule("R-NARROWSHL", "in the index arithmetic (PathToIndex, PathToIndexLoose, shiftMulti, IndexToPath) a value that was explicitly narrowed to a type of at most 32 bits is never the left operand of a left shift by a non-constant amount: bitmap sizes have up to 31 bits and shifts reach 30, so such a shift drops high bits for tall trees (heights the suite never reaches)")
+	for _, n := range []string{"bmtree.PathToIndex", "bmtree.PathToIndexLoose", "bmtree.shiftMulti", "bmtree.IndexToPath"} {
+		fn := findFunc(w, n)
+		if fn == nil {
+			continue
+		}
+		narrowed := map[ssa.Value]bool{}
+		changed := true
+		for changed {
+			changed = false
+			eachInstr(fn, func(ins ssa.Instruction) {
+				v, ok := ins.(ssa.Value)
+				if !ok || narrowed[v] {
+					return
+				}
+				t := false
+				switch x := v.(type) {
+				case *ssa.Convert:
+					if isIntType(x.Type()) && isIntType(x.X.Type()) && w.Sizes.Sizeof(x.Type()) <= 4 && w.Sizes.Sizeof(x.X.Type()) > w.Sizes.Sizeof(x.Type()) {
+						t = true
+					} else if narrowed[x.X] && w.Sizes.Sizeof(x.Type()) <= 4 {
+						t = true
+					}
+				case *ssa.Phi:
+					for _, e := range x.Edges {
+						if narrowed[e] {
+							t = true
+						}
+					}
+				case *ssa.BinOp:
+					if w.Sizes.Sizeof(x.Type()) <= 4 && (narrowed[x.X] || narrowed[x.Y]) && (x.Op == token.AND || x.Op == token.OR || x.Op == token.XOR || x.Op == token.ADD || x.Op == token.SUB) {
+						t = true
+					}
+				}
+				if t {
+					narrowed[v] = true
+					changed = true
+				}
+			})
+		}
+		bad := ""
+		eachInstr(fn, func(ins ssa.Instruction) {
+			bo, ok := ins.(*ssa.BinOp)
+			if !ok || bo.Op != token.SHL || !narrowed[bo.X] {
+				return
+			}
+			if _, isC := constInt64(stripConv(bo.Y)); isC {
+				return
+			}
+			bad = fmt.Sprintf("a value narrowed to %s is shifted left by a variable amount at %s", bo.X.Type(), w.InstrPos(ins))
+		})
+		r.Check(bad == "", "R-NARROWSHL", n, w.Pos(fn.Pos()), bad)
+	}
 	// ---- R-SIB
 	{
 		a := guardedSummary(w, fns["bmtree.PathToIndex"], 0)
